@@ -44,6 +44,7 @@ def setup(ctx):
     ctx.require("monitor", "l2_bounded_pipe", 20)
     ctx.require("monitor", "l2_other_success_statuses", 20)
     ctx.require("monitor", "l2_empty_meta", 10)
+    ctx.require("monitor", "l3_resumed_sessions", 8)
     ctx.require("monitor", "l2_text_bodies_with_charset_parameter", 15)
     ctx.require("monitor", "static_files_rewritten_while_serving", 12)
     ctx.require("monitor", "static_files_with_special_text", 8)
@@ -312,6 +313,46 @@ def run_l3(ctx):
                         expected = b"20 text/gemini\r\n" + files[name]
                         compare(ctx, case, expected, r["data"], r["eof"], "L3")
                         ctx.case(("L3", backend, bucket(len(files[name])), "static", p), True, sample={"level": "L3", **case})
+                # a client that caches TLS sessions (most do): its second and third connection resume the first one's
+                # session - with and without a client certificate, TLS 1.3 tickets and TLS 1.2 session ids
+                import socket as _socket
+                import ssl as _ssl
+
+                from vf.gen import certs as _certs
+
+                for ver in (_ssl.TLSVersion.TLSv1_3, _ssl.TLSVersion.TLSv1_2):
+                    for with_cert in (False, True):
+                        cctx = _ssl.SSLContext(_ssl.PROTOCOL_TLS_CLIENT)
+                        cctx.check_hostname = False
+                        cctx.verify_mode = _ssl.CERT_NONE
+                        cctx.maximum_version = ver
+                        if with_cert:
+                            own = _certs.identity("c06-resuming-client", "ec")
+                            cctx.load_cert_chain(own.certfile, own.keyfile)
+                        sess = None
+                        name = "f3_16384.gmi" if "f3_16384.gmi" in files else sorted(files)[0]
+                        for nth in range(3):
+                            got, err, reused = b"", None, None
+                            try:
+                                sk = cctx.wrap_socket(_socket.create_connection((srv.host, srv.port), timeout=20), server_hostname="localhost", session=sess)
+                                reused = sk.session_reused
+                                sk.sendall(f"gemini://localhost/{name}\r\n".encode())
+                                while True:
+                                    ch = sk.recv(65536)
+                                    if not ch:
+                                        break
+                                    got += ch
+                                sess = sk.session
+                                sk.close()
+                            except (OSError, _ssl.SSLError) as e:
+                                err = repr(e)[:100]
+                            ctx.count("monitor", "l3_resuming_client_connections")
+                            if reused:
+                                ctx.count("monitor", "l3_resumed_sessions")
+                            case = {"backend": backend, "len": len(files[name]), "btype": "str", "source": "static:resuming-client", "reader": "fast", "tls": ver.name, "client_certificate": with_cert,
+                                    "connection": nth + 1, "session_reused": reused, "error": err}
+                            compare(ctx, case, b"20 text/gemini\r\n" + files[name], got, err is None, "L3")
+                            ctx.case(("L3", backend, "resuming-client", ver.name, with_cert, nth, reused, bool(err)), True, sample={"level": "L3", **case})
                 # the files change while the server runs (a deploy that keeps time stamps - rsync -t, cp -p, tar x - or
                 # an ordinary rewrite): every request gets the bytes that are on disk when it is made
                 for name, keep_mtime, same_size in (("f3_16384.gmi", True, True), ("f1_1.gmi", True, True), ("odd_crlf.gmi", True, True), ("f5_16500.gmi", False, True),
